@@ -4,6 +4,7 @@
    an accepted timestamp >= 2^64-2 saturates the shard). *)
 From Coq Require Import List NArith ZArith Bool.
 From Feox Require Import Gen.Constants Model.Bytes Model.Lww Proofs.LwwProofs.
+From Feox Require Import Model.Clock Proofs.ClockProofs.
 Import ListNotations.
 Local Open Scope N_scope.
 
@@ -71,7 +72,12 @@ Theorem unrestricted_statement_refuted :
   let s1 := fst (step c init (Insert a [1] (Some (U64M - 1)) 0 false) e1) in
   let s2 := fst (step c s1 (Insert a [2] None 0 false) e2) in
   let s3 := fst (step c s2 (Insert b [3] None 0 false) e3) in
-  snd (step c s3 (Insert b [4] None 0 false) e4) = OErr Older.
+  snd (step c s3 (Insert b [4] None 0 false) e4) = OErr Older
+
+(* --- one shard of VersionClock under concurrency (Model/Clock.v): any number of threads inside
+   next / observe, every atomic access its own step, weak compare-exchange failures included --- *)
+
+(* the shard never goes back *).
 Proof. exact clock_saturation_refuted. Qed.
 Check unrestricted_statement_refuted :
   let c := mkcfg false false 3 None 168 in
@@ -83,5 +89,98 @@ Check unrestricted_statement_refuted :
   let s1 := fst (step c init (Insert a [1] (Some (U64M - 1)) 0 false) e1) in
   let s2 := fst (step c s1 (Insert a [2] None 0 false) e2) in
   let s3 := fst (step c s2 (Insert b [3] None 0 false) e3) in
-  snd (step c s3 (Insert b [4] None 0 false) e4) = OErr Older.
+  snd (step c s3 (Insert b [4] None 0 false) e4) = OErr Older
+
+(* --- one shard of VersionClock under concurrency (Model/Clock.v): any number of threads inside
+   next / observe, every atomic access its own step, weak compare-exchange failures included --- *)
+
+(* the shard never goes back *).
 Print Assumptions unrestricted_statement_refuted.
+
+Theorem shard_value_never_decreases :
+  forall es s, KInv s -> k_shard s <= k_shard (krun s es)
+
+(* a timestamp handed out by next is at least the caller's wall clock and exceeds every timestamp
+   handed out earlier on the shard and every timestamp whose observe had returned earlier, unless
+   it is 2^64-1 (saturation: KnownClass of finding F2) *).
+Proof. exact krun_mono. Qed.
+Check shard_value_never_decreases :
+  forall es s, KInv s -> k_shard s <= k_shard (krun s es)
+
+(* a timestamp handed out by next is at least the caller's wall clock and exceeds every timestamp
+   handed out earlier on the shard and every timestamp whose observe had returned earlier, unless
+   it is 2^64-1 (saturation: KnownClass of finding F2) *).
+Print Assumptions shard_value_never_decreases.
+
+Theorem issued_timestamp_exceeds_everything_before :
+  forall v es l1 t w r b l2 m,
+    k_line (krun (kinit v) es) = l1 ++ MNext t w r b :: l2 -> In m l2 ->
+    clamp w = w /\ w <= r /\ (mval m < r \/ r = U64M)
+
+(* once observe(ts) has returned, the shard covers ts for ever (recovery and explicit timestamps
+   are folded in through observe) *).
+Proof. exact issued_exceeds_everything_before. Qed.
+Check issued_timestamp_exceeds_everything_before :
+  forall v es l1 t w r b l2 m,
+    k_line (krun (kinit v) es) = l1 ++ MNext t w r b :: l2 -> In m l2 ->
+    clamp w = w /\ w <= r /\ (mval m < r \/ r = U64M)
+
+(* once observe(ts) has returned, the shard covers ts for ever (recovery and explicit timestamps
+   are folded in through observe) *).
+Print Assumptions issued_timestamp_exceeds_everything_before.
+
+Theorem observed_timestamp_stays_covered :
+  forall v es t ts,
+    In (MObs t ts) (k_line (krun (kinit v) es)) -> ts <> U64M -> ts <= k_shard (krun (kinit v) es)
+
+(* run alone, next and observe are the clock rules of the reference map -- the rules the
+   sequence engines compare with the real shard after every call *).
+Proof. exact observed_is_covered. Qed.
+Check observed_timestamp_stays_covered :
+  forall v es t ts,
+    In (MObs t ts) (k_line (krun (kinit v) es)) -> ts <> U64M -> ts <= k_shard (krun (kinit v) es)
+
+(* run alone, next and observe are the clock rules of the reference map -- the rules the
+   sequence engines compare with the real shard after every call *).
+Print Assumptions observed_timestamp_stays_covered.
+
+Theorem next_alone_obeys_the_reference_rule :
+  forall s t wall tb ta,
+    KInv s -> tb <= clamp wall -> clamp wall <= ta ->
+    k_shard (next_alone s t wall) = next_val (clamp wall) (k_shard s) /\
+    auto_ok (k_shard s) (k_shard (next_alone s t wall)) tb ta = true.
+Proof. exact next_alone_is_auto_ok. Qed.
+Check next_alone_obeys_the_reference_rule :
+  forall s t wall tb ta,
+    KInv s -> tb <= clamp wall -> clamp wall <= ta ->
+    k_shard (next_alone s t wall) = next_val (clamp wall) (k_shard s) /\
+    auto_ok (k_shard s) (k_shard (next_alone s t wall)) tb ta = true.
+Print Assumptions next_alone_obeys_the_reference_rule.
+
+Theorem observe_alone_is_the_reference_rule :
+  forall s t ts, KInv s -> k_shard (observe_alone s t ts) = observe (k_shard s) (clamp ts)
+
+(* and the mechanism of F2 inside this model: at 2^64-1 two automatic timestamps in a row are equal *).
+Proof. exact observe_alone_is_observe. Qed.
+Check observe_alone_is_the_reference_rule :
+  forall s t ts, KInv s -> k_shard (observe_alone s t ts) = observe (k_shard s) (clamp ts)
+
+(* and the mechanism of F2 inside this model: at 2^64-1 two automatic timestamps in a row are equal *).
+Print Assumptions observe_alone_is_the_reference_rule.
+
+Theorem saturated_shard_repeats_a_timestamp :
+  exists v es t1 w1 b1 t2 w2 b2,
+    k_line (krun (kinit v) es) = [MNext t2 w2 U64M b2; MNext t1 w1 U64M b1].
+Proof. exact saturated_shard_repeats. Qed.
+Check saturated_shard_repeats_a_timestamp :
+  exists v es t1 w1 b1 t2 w2 b2,
+    k_line (krun (kinit v) es) = [MNext t2 w2 U64M b2; MNext t1 w1 U64M b1].
+Print Assumptions saturated_shard_repeats_a_timestamp.
+(* non-vacuity: three threads racing on one shard; the loser of a compare-exchange retries with the
+   value it saw and still gets a larger timestamp *)
+Example clock_race :
+  let es := [KNextLoad 1 50; KNextLoad 2 40; KObsLoad 3 70; KNextCas 1 false; KNextCas 2 false;
+             KObsCas 3 false; KObsCas 3 false; KNextCas 2 true; KNextCas 2 false] in
+  k_line (krun (kinit 10) es) = [MNext 2 40 71 70; MObs 3 70; MNext 1 50 50 10]
+  /\ k_shard (krun (kinit 10) es) = 71 /\ KInv (kinit 10).
+Proof. split; [vm_compute; reflexivity|]. split; [vm_compute; reflexivity|apply kinit_inv]. Qed.
